@@ -23,7 +23,11 @@ type Step struct {
 	ErrClass string `json:"err_class,omitempty"` // eof | transform-failed | fatal
 	Checksum string `json:"checksum,omitempty"`
 	RawJSON  string `json:"raw,omitempty"`
+	Bytes    string `json:"bytes,omitempty"` // the bytes returned by Read, verbatim
 }
+
+// KeyExact compares everything including the verbatim output bytes and the error text.
+func (s Step) KeyExact() string { return s.KeyWithErr() + "|" + s.Bytes }
 
 // Key is the comparison key of a step without error text.
 func (s Step) Key() string { return s.Kind + "|" + s.ErrClass + "|" + s.JSON + "|" + s.Checksum }
@@ -112,9 +116,9 @@ func ClassifyStep(b []byte, err error) Step {
 	case err == nil:
 		c, cerr := Canon(b)
 		if cerr != nil {
-			return Step{Kind: "rec", JSON: "INVALID-JSON:" + string(b)}
+			return Step{Kind: "rec", JSON: "INVALID-JSON:" + string(b), Bytes: string(b)}
 		}
-		return Step{Kind: "rec", JSON: c}
+		return Step{Kind: "rec", JSON: c, Bytes: string(b)}
 	case errs.IsErrTransformFailed(err):
 		return Step{Kind: "fail", Err: err.Error(), ErrClass: "transform-failed"}
 	case err == io.EOF:
